@@ -33,6 +33,14 @@ TCall == /\ e.op = "call"
          /\ Check(t, l, "ObjectUnchanged", e.after = st')
          /\ Check(t, l, "SnapshotUnchanged", e.world = world')
          /\ Adv
+(* a mutator called with no-op arguments: refused too (MutatorRefused), except the exact
+   calls of ValueObjectVZ!NoopTolerated; never any change *)
+TNoop == /\ e.op = "noop"
+         /\ Check(t, l, "MutatorRefused", e.res = "err" \/ <<kind, e.cls, e.m, e.args>> \in NoopTolerated)
+         /\ IF e.res = "err" THEN RefusedNoop(e.m) ELSE SilentNoop(e.cls, e.m, e.args)
+         /\ Check(t, l, "ObjectUnchanged", e.after = st')
+         /\ Check(t, l, "SnapshotUnchanged", e.world = world')
+         /\ Adv
 TDone == /\ e.op = "done"
          /\ Done(ToSetOf(e.available)) /\ Adv
 TEnd == /\ e.op = "end" /\ kind = ""
@@ -42,7 +50,7 @@ TEnd == /\ e.op = "end" /\ kind = ""
         /\ Check(t, l, "CatalogueCovered", e.rich => Covered)
         /\ UNCHANGED vars /\ Adv
 
-TraceNext == l <= Len(Ev(t)) /\ (TObj \/ TCall \/ TDone \/ TEnd)
+TraceNext == l <= Len(Ev(t)) /\ (TObj \/ TCall \/ TNoop \/ TDone \/ TEnd)
 
 Accepted == Accepting(t, l)
 =============================================================================
